@@ -129,7 +129,7 @@ def run_unit(path, tier="quick", overlay=None, tag=""):
     def one(h):
         if h["thorough"] and tier != "thorough":
             return h, None, 0.0
-        cmd = ["cargo", "kani"] + flags + ["--harness", h["name"]]
+        cmd = ["cargo", "kani"] + flags + ["--harness", h["name"]] + ([] if os.environ.get("VERIF_KANI_SUBSTRING") else [])
         t1 = time.time()
         rc, out = run_group(cmd, crate, env, h["timeout"] * (2 if tier == "thorough" else 1))
         if rc is None:
